@@ -229,5 +229,5 @@ func minimize(sig string, cs []byte) []byte {
 	if err := json.Unmarshal(cs, &c); err != nil {
 		return nil
 	}
-	return ev.JSON(Case{Script: sess.Minimize(c.Script, func(s sess.Script) bool { return runCase(Case{Script: s}).HasSig(sig) })})
+	return ev.JSON(Case{Script: sess.Minimize(c.Script, ev.Bounded(func(s sess.Script) bool { return runCase(Case{Script: s}).HasSig(sig) }))})
 }
